@@ -269,7 +269,7 @@ var specs = []mechSpec{
 		{"expressions": []any{map[string]any{"expression": "Payload.allow == 'never'", "message": "policy A"}}},
 		{"expressions": []any{map[string]any{"expression": "Payload.allow == 'never'", "message": "policy B"}}},
 		{"expressions": []any{map[string]any{"expression": `Payload.allow == false && "10.1.2.3" in networks("10.0.0.0/8")`}}},
-		{"expressions": []any{map[string]any{"expression": `Payload.allow == false && Subject.ID.regexFind("^a[a-z]+") == "alice"`}}},
+		{"expressions": []any{map[string]any{"expression": `Payload.allow == false && string(Payload.allow).regexFind("^fa") == "fa"`}}},
 		{"expressions": []any{map[string]any{"expression": `Payload.allow == false && ["10.1.2.3"].all(ip, ip in networks(["10.0.0.0/8", "192.168.0.0/16"]))`}}},
 		{"forward_response_headers_to_upstream": []any{"X-Other"}}, {"cache_ttl": "9s"}, {"values": map[string]any{"a": "uno"}}, {"values": map[string]any{"c": "three"}}}},
 	{"contextualizer", "ctx", []map[string]any{
@@ -961,6 +961,13 @@ func c17Sim(r *simcore.Run) {
 	loaded := map[string]*inst{} // used while the plans are drawn only
 	// tasks share few mechanism types so that they meet on the same prototype
 	focus := []mechSpec{simcore.Pick(s, runSpecs, "focus1"), simcore.Pick(s, runSpecs, "focus2")}
+	// ... and often on the same rule-level configuration of it (many rules are written alike)
+	popular := map[string]map[string]any{}
+	for _, sp := range focus {
+		if len(sp.overrides) > 0 {
+			popular[sp.id] = simcore.Pick(s, sp.overrides, "popular-override")
+		}
+	}
 	for t := 0; t < nTasks; t++ {
 		t := t
 		nExec := 1 + s.Draw(3, "n-exec")
@@ -972,8 +979,14 @@ func c17Sim(r *simcore.Run) {
 		for k := 0; k < nExec; k++ {
 			sp := focus[s.Draw(2, "focus")]
 			var ov map[string]any
-			if len(sp.overrides) > 0 && s.Draw(2, "use-variant") == 1 {
-				ov = simcore.Pick(s, sp.overrides, "override")
+			if len(sp.overrides) > 0 {
+				switch s.Draw(4, "use-variant") {
+				case 0: // the prototype
+				case 1:
+					ov = simcore.Pick(s, sp.overrides, "override")
+				default:
+					ov = popular[sp.id]
+				}
 			}
 			plan = append(plan, step{sp, ov})
 		}
